@@ -474,7 +474,9 @@ def roi_shape(roi: NdROI) -> Tuple[int, ...]:
             raise ValueError(
                 "Can't determine shape of the slice with open right-hand side."
             )
-        _in = 0 if s.start is None else s.start
+        # plain ints: bounds can be numpy scalars of a narrow or unsigned type
+        _out = operator.index(_out)
+        _in = 0 if s.start is None else operator.index(s.start)
         if _in < 0 or _out < 0:
             raise ValueError(
                 "Can't determine shape of the slice with negative offsets."
@@ -507,13 +509,15 @@ def roi_is_full(roi: NdROI, shape: Union[int, Tuple[int, ...]]) -> bool:
     def slice_full(s: SomeSlice, n: int) -> bool:
         if not isinstance(s, slice):  # int, numpy integers
             return n == 1
+        if s.stop is not None and s.stop > n:
+            return False  # reaches past the end: not the same region
         s = _norm_slice(s, n)  # resolve open ends and negative offsets
         return (s.start, s.stop) == (0, n)
 
     if not isinstance(roi, tuple):
         roi = (roi,)
 
-    if not isinstance(shape, tuple):
+    if not isinstance(shape, abc.Sequence):  # tuple, Shape2d
         shape = (shape,)
 
     return all(slice_full(s, n) for s, n in zip(roi, shape))
@@ -529,12 +533,13 @@ def _norm_slice_or_error(s: SomeSlice) -> NormalizedSlice:
         stop = start + 1
         step = None
     else:
-        start = _fill_if_none(s.start, 0)
+        # plain ints: bounds can be numpy scalars of a narrow or unsigned type
+        start = 0 if s.start is None else operator.index(s.start)
 
         if s.stop is None:
             raise ValueError("Can't process open ended slice")
 
-        stop = s.stop
+        stop = operator.index(s.stop)
         step = s.step
 
     if stop < 0 or start < 0:
@@ -549,10 +554,13 @@ def _norm_slice(s: SomeSlice, n: int) -> NormalizedSlice:
         if s < 0:
             s = n + s
         return slice(s, s + 1)
-    start = _fill_if_none(s.start, 0)
-    stop = _fill_if_none(s.stop, n)
-    # negative offsets count from the end but never reach past the start
-    start, stop = (x if x >= 0 else max(0, n + x) for x in (start, stop))
+    n = operator.index(n)
+    # plain ints: bounds can be numpy scalars of a narrow or unsigned type
+    start = 0 if s.start is None else operator.index(s.start)
+    stop = n if s.stop is None else operator.index(s.stop)
+    # negative offsets count from the end but never reach past the start,
+    # offsets past the end stop at the end
+    start, stop = (min(x, n) if x >= 0 else max(0, n + x) for x in (start, stop))
     return slice(start, stop, s.step)
 
 
@@ -658,6 +666,8 @@ def roi_pad(
 
     Returned ROI is guaranteed to be within ``(0,..) -> shape``.
     """
+
+    pad = int(pad)
 
     def pad_slice(s: SomeSlice, n: int) -> NormalizedSlice:
         s = _norm_slice(s, n)
@@ -780,6 +790,9 @@ def roi_from_points(
         return np.s_[0:0, 0:0]
 
     ny, nx = shape
+    # plain ints: ``-_margin`` below must not wrap in an unsigned numpy type
+    padding = int(padding)
+    align = int(align) if align else None
 
     # clamp in float domain first: far away points must not overflow int32,
     # margin is wide enough to not change the outcome of padding/align/clip below
